@@ -263,6 +263,11 @@ func runCrash(prop, tier, replay string) {
 	stacks := []string{"fs"}
 	if r.Thorough() {
 		stacks = []string{"fs", "ec21", "zstd>tink>fs"}
+		if prop == "C09" {
+			// every crash end state costs two GC passes and the reclamation scan on top of the
+			// restart: C09 walks two of the three stacks (C10 itself covers all three)
+			stacks = []string{"fs", "ec21"}
+		}
 	}
 	bin := os.Getenv("VERIF_BIN")
 	if bin == "" {
@@ -302,6 +307,9 @@ func runCrash(prop, tier, replay string) {
 				}
 				if r.Quick() && (!cc.quick || (versioned && ci%4 != 1)) {
 					continue // quick tier: the core cases; versioned variant for every third case
+				}
+				if prop == "C09" && versioned && ci%2 == 1 {
+					continue // C09 thorough: the versioned variant for every second case
 				}
 				label := fmt.Sprintf("%s-%v-%s", strings.NewReplacer(">", "_").Replace(stack), versioned, cc.name)
 				rng := base.Fork("crash/" + label)
